@@ -24,12 +24,12 @@ Definition healthy (rv : raftrev) (size : N) (data : list N) : cluster :=
 Lemma C30_fifo_3 : forall rv,
   let c := healthy rv 3 [101; 102] in
   c_net c = [] /\ all_synced_b c [101; 102] = true /\ election_safety_b (c_hist c) = true.
-Proof. intros [[|] [|]]; vm_compute; auto. Qed.
+Proof. intros [[|] [|] [|]]; vm_compute; auto. Qed.
 
 Lemma C30_fifo_5 : forall rv,
   let c := healthy rv 5 [101; 102] in
   c_net c = [] /\ all_synced_b c [101; 102] = true /\ election_safety_b (c_hist c) = true.
-Proof. intros [[|] [|]]; vm_compute; auto. Qed.
+Proof. intros [[|] [|] [|]]; vm_compute; auto. Qed.
 
 (* ================================================================== 2. all fault-free interleavings *)
 
@@ -344,7 +344,7 @@ Definition script3 : list event :=
   [Tick 0 0 []; ClientAppend 0 101; ClientAppend 0 102; Tick 0 1001 [1; 2]].
 
 Lemma C30_check3 : forall rv, check rv 100 script3 (fun c => all_synced_b c [101; 102]) (init_default 3) = true.
-Proof. intros [[|] [|]]; vm_compute; reflexivity. Qed.
+Proof. intros [[|] [|] [|]]; vm_compute; reflexivity. Qed.
 
 Theorem C30_all_interleavings_3 : forall rv c',
   ff_run rv script3 (init_default 3) c' -> all_synced_b c' [101; 102] = true.
@@ -373,10 +373,10 @@ Proof.
   set (c4 := drain rv 200 (step rv c3 (Tick 0 1001 [1; 2]))).
   assert (R : ff_run rv script3 (init_default 3) c4).
   { unfold script3.
-    apply (ff_act rv _ _ _ c1); [apply (dl_run_drain rv 200); destruct rv as [[|] [|]]; vm_compute; reflexivity|].
-    apply (ff_act rv _ _ _ c2); [apply (dl_run_drain rv 200); destruct rv as [[|] [|]]; vm_compute; reflexivity|].
-    apply (ff_act rv _ _ _ c3); [apply (dl_run_drain rv 200); destruct rv as [[|] [|]]; vm_compute; reflexivity|].
-    apply (ff_act rv _ _ _ c4); [apply (dl_run_drain rv 200); destruct rv as [[|] [|]]; vm_compute; reflexivity|].
+    apply (ff_act rv _ _ _ c1); [apply (dl_run_drain rv 200); destruct rv as [[|] [|] [|]]; vm_compute; reflexivity|].
+    apply (ff_act rv _ _ _ c2); [apply (dl_run_drain rv 200); destruct rv as [[|] [|] [|]]; vm_compute; reflexivity|].
+    apply (ff_act rv _ _ _ c3); [apply (dl_run_drain rv 200); destruct rv as [[|] [|] [|]]; vm_compute; reflexivity|].
+    apply (ff_act rv _ _ _ c4); [apply (dl_run_drain rv 200); destruct rv as [[|] [|] [|]]; vm_compute; reflexivity|].
     apply ff_nil. }
   exists c4. split; [exact R | apply (C30_all_interleavings_3 rv); exact R].
 Qed.
